@@ -207,6 +207,8 @@ flag = sys.argv[1] == "on"
 keys = c05.KEYSETS[sys.argv[2]]
 out = []
 for line in sys.stdin:
+    if not line.strip():
+        continue
     w = pickle.loads(base64.b64decode(line))
     w.flag = flag
     Vertex.NEIGHBOR_CACHING = flag
